@@ -388,7 +388,7 @@ class Runner:
         info['fired'] = list(plan.fired)
         if info['counts'] is None:
             info['counts'] = dict(plan.count)
-        if r.verdict in ('deadlock', 'stepbound'):
+        if r.verdict in ('deadlock', 'stepbound', 'timebound'):
             errs.append(('C12:blocks-although-free',
                          f'{r.verdict}: an operation the model says completes never returned',
                          {'blocked': r.blocked, 'sequence_prefix_done': None}))
